@@ -18,6 +18,7 @@ AgreeRT(e) == /\ ~Has(e.out, "panic")
 \* specification's decoder) as the names that were put in, and those are the names that come back
 AgreeRTVia(e) == /\ ~Has(e.out, "panic")
                  /\ LabelAgrees(e.wire, TRUE, e.names)
+                 /\ CompleteEncodingOf(e.wire, e.names)
                  /\ e.out.ok /\ e.out.names = e.names
 \* replay the edits on the specification's object and compare every encoding
 RECURSIVE ObjRun(_, _, _, _)
